@@ -80,9 +80,9 @@ type hKey struct{ jwk.Key }
 
 type hHeaders struct {
 	jws.Headers
-	alg            string
-	hasJWK, hasX5C bool
-	jku, x5u       string
+	alg                            string
+	hasJWK, hasX5C, hasJKU, hasX5U bool
+	jku, x5u                       string
 }
 
 func (h *hHeaders) Algorithm() jwa.SignatureAlgorithm { return jwa.SignatureAlgorithm(h.alg) }
@@ -92,8 +92,23 @@ func (h *hHeaders) JWK() jwk.Key {
 	}
 	return nil
 }
-func (h *hHeaders) JWKSetURL() string { return h.jku }
-func (h *hHeaders) X509URL() string   { return h.x5u }
+func (h *hHeaders) JWKSetURL() string {
+	if h.hasJKU {
+		return h.jku
+	}
+	return ""
+}
+func (h *hHeaders) X509URL() string {
+	if h.hasX5U {
+		return h.x5u
+	}
+	return ""
+}
+
+// keySource: does the signature name its own verification key in any of the four ways
+func (h *hHeaders) keySource() bool {
+	return h.hasJWK || (h.hasJKU && h.jku != "") || h.hasX5C || (h.hasX5U && h.x5u != "")
+}
 func (h *hHeaders) X509CertChain() *cert.Chain {
 	if h.hasX5C {
 		return &cert.Chain{}
@@ -119,7 +134,8 @@ func hJWSParseString(src string) (*jws.Message, error) {
 
 // hSymHeaders draws the protected headers of one signature: alg is absent or an arbitrary string of
 // 4..6 bytes (none, HS256, ES256, EdDSA, ES256K and every other string of those lengths),
-// jwk / x5c present or not, jku / x5u empty or one arbitrary byte.
+// jwk / x5c present or not, jku / x5u absent or one arbitrary byte (a present jku/x5u is never the empty
+// string: jwx stores what the JSON says and an attacker gains nothing from "jku": "").
 func hSymHeaders() *hHeaders {
 	h := &hHeaders{}
 	switch vChoice(4) {
@@ -133,12 +149,16 @@ func hSymHeaders() *hHeaders {
 	}
 	vTag("hasJWK")
 	h.hasJWK = vBool()
+	vTag("hasJKU")
+	h.hasJKU = vBool()
 	vTag("jku")
-	h.jku = vString(vLen(0, 1))
+	h.jku = vString(1)
 	vTag("hasX5C")
 	h.hasX5C = vBool()
+	vTag("hasX5U")
+	h.hasX5U = vBool()
 	vTag("x5u")
-	h.x5u = vString(vLen(0, 1))
+	h.x5u = vString(1)
 	return h
 }
 
@@ -159,7 +179,7 @@ func H17b_tokenv2() {
 		// a compact, clean, single-signature ES256 token is not refused
 		if !hJWSFail && n == 1 {
 			h := hJWSSigs[0]
-			vAssert(!(h.alg == "ES256" && !h.hasJWK && h.jku == "" && !h.hasX5C && h.x5u == ""), "H17b_tokenv2.clean_es256_accepted: rejected a single-signature ES256 token without key headers")
+			vAssert(!(h.alg == "ES256" && !h.keySource()), "H17b_tokenv2.clean_es256_accepted: rejected a single-signature ES256 token without key headers")
 		}
 		return
 	}
@@ -176,9 +196,9 @@ func H17b_tokenv2() {
 		vAssert(hAsymmetricJWA(h.alg), "H17b_tokenv2.every_alg_asymmetric: accepted a signature whose alg is outside the asymmetric reference set")
 		vAssert(!hForbiddenLookalike(h.alg) && h.alg != "", "H17b_tokenv2.none_mac_rejected: accepted a signature with alg none/HS*/absent")
 		vAssert(!h.hasJWK, "H17c_tokenv2.no_embedded_jwk: accepted a signature carrying a jwk header")
-		vAssert(h.jku == "", "H17c_tokenv2.no_jku: accepted a signature carrying a jku header")
+		vAssert(!h.hasJKU, "H17c_tokenv2.no_jku: accepted a signature carrying a jku header")
 		vAssert(!h.hasX5C, "H17c_tokenv2.no_x5c: accepted a signature carrying an x5c header")
-		vAssert(h.x5u == "", "H17c_tokenv2.no_x5u: accepted a signature carrying an x5u header")
+		vAssert(!h.hasX5U, "H17c_tokenv2.no_x5u: accepted a signature carrying an x5u header")
 	}
 }
 
